@@ -21,7 +21,7 @@ BOUNDS = {
               "table order": "8 insertion orders of the face-connection table (faces and per-face axes)",
               "halo": "2x2 faces linked on both axes (periodic and open), fill/extend/periodic, 2-D width sets with widths <= 1, all data symbolic, corner cells included",
               "signatures": "10 pairs of 2- and 3-axis signatures (renamings, merged/split names, swapped positions)",
-              "parsed metadata": "COMODO 2-3 axes, SGRID 2-D, 2-D+vertical, 3-D", "metrics": "8 registries over 3 axes offering several partitions"},
+              "parsed metadata": "COMODO 2-3 axes (axis names X/Y/Z and free-text names), SGRID 2-D, 2-D+vertical, 3-D", "metrics": "8 registries over 3 axes offering several partitions"},
     "thorough": {"halo": "widths <= 2", "parsed metadata": "+ 4 axes (COMODO)", "metrics": "+ get_metric(XYZ) on all 35 registries of 2-3 pair/single metrics"},
 }
 OUTSIDE = ["other conceivable seed effects: dict order is insertion order and id()-based ordering does not occur in the xgcm source (source scan, not explored)",
@@ -71,11 +71,13 @@ def cases(tier):
     out.append(dict(scen="sig", pairs=[list(SIG_PAIRS[0]), list(SIG_PAIRS[6])], realseeds=True))
     out.append(dict(scen="parse", conv="comodo", axes=["X", "Y", "Z"], realseeds=True))
     out.append(dict(scen="parse", conv="sgrid", axes=["X", "Y", "Z"], realseeds=True))
+    out.append(dict(scen="parse", conv="comodo", axes=["xi", "eta", "s"], realseeds=True))
     out.append(dict(scen="metric", registry=["a_xy", "dz", "a_xz", "dy"], requests=[["X", "Y", "Z"]], op="get_metric", realseeds=True))
     out.append(dict(scen="metric", registry=["a_xy", "a_xz", "a_yz", "dx", "dy", "dz"], requests=[["Z", "Y", "X"]], op="integrate", realseeds=True))
     for i in range(0, len(SIG_PAIRS)):
         out.append(dict(scen="sig", pairs=[list(SIG_PAIRS[i])]))
-    for axes in (["X", "Y"], ["X", "Y", "Z"], ["Y", "X"], ["Z", "Y", "X"]) + ((["T", "X", "Y", "Z"],) if tier == "thorough" else ()):
+    # COMODO axis names are free text: conventional letters, other names, and a mix
+    for axes in (["X", "Y"], ["X", "Y", "Z"], ["Y", "X"], ["Z", "Y", "X"], ["xi", "eta"], ["xi", "eta", "s"], ["lon", "lat"], ["X", "eta", "s"]) + ((["T", "X", "Y", "Z"], ["T", "xi", "eta", "s"]) if tier == "thorough" else ()):
         out.append(dict(scen="parse", conv="comodo", axes=axes))
     out.append(dict(scen="parse", conv="sgrid", axes=["X", "Y"]))
     out.append(dict(scen="parse", conv="sgrid", axes=["X", "Y", "Z"]))
